@@ -13,14 +13,14 @@ _E = [0, 1, 2]
 def network(us_net="A", us_sp="A"):
     sp = [Species("A", density={"e0": 2.5, "e1 , e2": 0.75}, chstt={"e1": True}, units_system=SYS[us_sp]),      # a grouped key, with blanks around the comma
           Species("B", density={"e2": 4.0, "default": 1.25}, chstt=True, units_system=SYS[us_sp]),
-          Species("C", density=3.5, chstt={"e0": 1, "default": 0}, units_system=SYS[us_sp]),
+          Species("C", density={"e0": "2 µM", "e1": "500 nM", "default": "150 molecule/µm3"}, chstt={"e0": 1, "default": 0}, units_system=SYS[us_sp]),     # entries in different units
           Species("D", chstt={"e1": False, "e2": 0, "default": True}, density={"e0": 0, "default": 1.5}, units_system=SYS[us_sp])]
     return RDNetwork(species=sp, reactions=[], environments=ENVS, units_system=SYS[us_net])
 
 
 def expected_density(s, env):
     """molecules... in the species' own units: the per-environment value, else 'default', else 0"""
-    return [{"e0": 2.5, "e1": 0.75, "e2": 0.75}.get(env, 0.0), {"e2": 4.0}.get(env, 1.25), 3.5, {"e0": 0.0}.get(env, 1.5)][s]
+    return [{"e0": 2.5, "e1": 0.75, "e2": 0.75}.get(env, 0.0), {"e2": 4.0}.get(env, 1.25), None, {"e0": 0.0}.get(env, 1.5)][s]      # species C: explicit units, see default_ok
 
 
 def expected_flag(s, env):
@@ -50,7 +50,7 @@ def default_ok(system, envmap, vols_si, us_sp):
     for s in range(4):
         for i in range(n):
             env = ENVS[envmap[i]]
-            dens_si = expected_density(s, env) * si_factor(SYS[us_sp], dim_d)
+            dens_si = expected_density(s, env) * si_factor(SYS[us_sp], dim_d) if s != 2 else {"e0": 2e-3 * 6.02214076e23, "e1": 0.5e-3 * 6.02214076e23}.get(env, 150e18)
             want = dens_si * vols_si[i]
             got = si(st.get_at(s * n + i))
             if abs(got - want) > 1e-9 * abs(want) + 1e-300:
